@@ -98,9 +98,29 @@ def reset_peer_runs(ctx, n):
         closer = rng.choice(["client", "upstream", "none"])
         ops = [{"op": "upstream", "id": "u", "port": up, "mode": "manual"},
                api("POST", "/proxies", {"name": "p", "listen": "127.0.0.1:%d" % px, "upstream": "127.0.0.1:%d" % up}),
-               api("POST", "/proxies/p/toxics", {"type": "reset_peer", "stream": stream, "attributes": {"timeout": T}}),
-               {"op": "dial", "id": "c", "addr": "127.0.0.1:%d" % px},
-               {"op": "upaccept", "id": "s", "up": "u", "ms": 1000}]
+               api("POST", "/proxies/p/toxics", {"type": "reset_peer", "name": "rp", "stream": stream, "attributes": {"timeout": T}})]
+        # a history of other toxic operations before the connection is made - the reset_peer toxic stays listed, so the connection
+        # must still end with a reset
+        other = "downstream" if stream == "upstream" else "upstream"
+        hist = rng.choice(["none", "none", "other_stream_added_removed", "same_stream_added_removed", "second_reset_removed", "timeout_updated", "disabled_enabled", "other_before"])
+        if hist == "other_stream_added_removed":
+            ops += [api("POST", "/proxies/p/toxics", {"type": rng.choice(["latency", "slow_close", "noop"]), "name": "o", "stream": other, "attributes": {}}),
+                    api("DELETE", "/proxies/p/toxics/o")]
+        elif hist == "same_stream_added_removed":
+            ops += [api("POST", "/proxies/p/toxics", {"type": "noop", "name": "o", "stream": stream, "attributes": {}}),
+                    api("DELETE", "/proxies/p/toxics/o")]
+        elif hist == "second_reset_removed":
+            ops += [api("POST", "/proxies/p/toxics", {"type": "reset_peer", "name": "o", "stream": other, "attributes": {"timeout": 5000}}),
+                    api("DELETE", "/proxies/p/toxics/o")]
+        elif hist == "timeout_updated":
+            ops += [api("POST", "/proxies/p/toxics/rp", {"attributes": {"timeout": T}})]
+        elif hist == "disabled_enabled":
+            ops += [api("POST", "/proxies/p", {"enabled": False}), api("POST", "/proxies/p", {"enabled": True})]
+        elif hist == "other_before":
+            ops.insert(2, api("POST", "/proxies/p/toxics", {"type": "noop", "name": "o", "stream": other, "attributes": {}}))
+            ops.append(api("DELETE", "/proxies/p/toxics/o"))
+        ops += [{"op": "dial", "id": "c", "addr": "127.0.0.1:%d" % px},
+                {"op": "upaccept", "id": "s", "up": "u", "ms": 1000}]
         sender, receiver = ("c", "s") if stream == "upstream" else ("s", "c")
         if payload:
             ops.append({"op": "send", "id": sender, "n": payload})
@@ -114,7 +134,7 @@ def reset_peer_runs(ctx, n):
                 ops.append({"op": "close", "id": sender, "how": "half"})
         ops.append({"op": "recv", "id": receiver, "up": sender, "n": max(payload, 1), "ms": T + 1500})
         ops.append({"op": "recv", "id": sender, "up": receiver, "n": 1, "ms": T + 1500})
-        cases.append({"ops": ops, "group": g, "T": T, "stream": stream, "payload": payload})
+        cases.append({"ops": ops, "group": g, "T": T, "stream": stream, "payload": payload, "history": hist})
     results = run_tcp(ctx, cases, "c13")
     fails = []
     ok = 0
@@ -129,8 +149,8 @@ def reset_peer_runs(ctx, n):
             fails.append(("reset-peer-data", "reset_peer delivered %d bytes in its direction" % recv_rx["got"],
                           {"kind": "failing-input", "tcp": True, "case": c, "observed": r}))
         elif recv_rx.get("end") != "reset" and recv_tx.get("end") != "reset":
-            fails.append(("reset-peer-no-rst", "reset_peer present at connect time: peers saw %s / %s instead of a connection reset"
-                          % (recv_rx.get("end"), recv_tx.get("end")), {"kind": "failing-input", "tcp": True, "case": c, "observed": r}))
+            fails.append(("reset-peer-no-rst", "reset_peer present at connect time (history before the connection: %s): peers saw %s / %s instead of a connection reset"
+                          % (c.get("history"), recv_rx.get("end"), recv_tx.get("end")), {"kind": "failing-input", "tcp": True, "case": c, "observed": r}))
         elif recv_rx.get("took_ms", 0) + 5 < c["T"] and recv_rx.get("end") == "reset":
             fails.append(("reset-peer-early", "reset after %d ms, before timeout %d ms" % (recv_rx.get("took_ms", 0), c["T"]),
                           {"kind": "failing-input", "tcp": True, "case": c, "observed": r}))
